@@ -1291,16 +1291,73 @@ package mocrelay
 // C13: a write (or ping) to the peer is abandoned after SendTimeout whatever the other options are
 
 //@ func Relay.sendMsgWithTimeout
-//@   serves C13
+//@   serves C12 C13
 //@   requires relay != nil && conn != nil
-//@   writes ghost(lastwritectx, conn)
+//@   writes ghost(lastwritectx, conn), ghost(wsOutTyp, conn), ghost(wsOutData, conn)
 //@   ensures[C13] relay.opt.SendTimeout > 0 ==> writeBoundedBy(conn, relay.opt.SendTimeout)
+//@   ensures[C12] isnil(result) ==> (len(g(wsOutData, conn)) == len(old(g(wsOutData, conn))) + 1 && len(g(wsOutTyp, conn)) == len(g(wsOutData, conn)) && g(wsOutData, conn)[len(old(g(wsOutData, conn)))] == msg && g(wsOutTyp, conn)[len(old(g(wsOutData, conn)))] == websocket.MessageText)
+//@   ensures[C12] isnil(result) ==> forall(i, 0, len(old(g(wsOutData, conn))), g(wsOutData, conn)[i] == old(g(wsOutData, conn))[i] && g(wsOutTyp, conn)[i] == old(g(wsOutTyp, conn))[i])
 
 //@ func Relay.sendPingWithTimeout
 //@   serves C13
 //@   requires relay != nil && conn != nil
 //@   writes ghost(lastpingctx, conn)
 //@   ensures[C13] relay.opt.SendTimeout > 0 ==> pingBoundedBy(conn, relay.opt.SendTimeout)
+
+// ---------------------------------------------------------------------------------------------
+// C12: the WebSocket session hands exactly the valid, authentic frames to the handler
+
+//@ func ParseClientMsg
+//@   serves C12
+//@   trusted the decoder is the subject of C10; here it is a function of the frame text
+//@   pure
+//@   ensures isnil(err) == !parseFails(b)
+//@   ensures isnil(err) ==> (msg == parsedMsg(b) && !isnil(msg))
+//@   ensures !isnil(err) ==> isnil(msg)
+
+//@ func NewServerNoticeMsg
+//@   serves C12
+//@   writes nothing
+//@   ensures fresh(result) && result.Message == message
+
+//@ func NewServerNoticeMsgf
+//@   serves C12
+//@   writes nothing
+//@   ensures fresh(result)
+
+//@ func Relay.serveRead
+//@   serves C12
+//@   requires relay != nil && conn != nil && limiter != nil && !isnil(recv) && !isnil(send) && refof(recv) != refof(send)
+//@   writes contents(recv), contents(send), ghost(dropped, recv), ghost(dropped, send), ghost(framesRead, conn), ghost(lastTyp, conn), ghost(lastPayload, conn)
+//@   ensures[C12] !isnil(result) ==> (g(framesRead, conn) == old(g(framesRead, conn)) && chanbuf(recv) == old(chanbuf(recv)) && chanbuf(send) == old(chanbuf(send)) && g(dropped, recv) == old(g(dropped, recv)) && g(dropped, send) == old(g(dropped, send)))
+//@   ensures[C12] isnil(result) ==> g(framesRead, conn) == old(g(framesRead, conn)) + 1
+//@   ensures[C12] (isnil(result) && frameAccepted(g(lastTyp, conn), g(lastPayload, conn))) ==> (chanbuf(send) == old(chanbuf(send)) && g(dropped, send) == old(g(dropped, send)))
+//@   ensures[C12] (isnil(result) && frameAccepted(g(lastTyp, conn), g(lastPayload, conn)) && g(dropped, recv) == old(g(dropped, recv))) ==> appendedC(chanbuf(recv), old(chanbuf(recv)), parsedMsg(g(lastPayload, conn)))
+//@   ensures[C12] (isnil(result) && !frameAccepted(g(lastTyp, conn), g(lastPayload, conn))) ==> (chanbuf(recv) == old(chanbuf(recv)) && g(dropped, recv) == old(g(dropped, recv)))
+//@   ensures[C12] (isnil(result) && !frameAccepted(g(lastTyp, conn), g(lastPayload, conn)) && g(dropped, send) == old(g(dropped, send))) ==> oneNoticeAppended(chanbuf(send), old(chanbuf(send)))
+//@   ensures[C12] (isnil(result) && frameAccepted(g(lastTyp, conn), g(lastPayload, conn)) && g(dropped, recv) != old(g(dropped, recv))) ==> (chanbuf(recv) == old(chanbuf(recv)) && g(dropped, recv) == old(g(dropped, recv)) + 1)
+//@   ensures[C12] (isnil(result) && !frameAccepted(g(lastTyp, conn), g(lastPayload, conn)) && g(dropped, send) != old(g(dropped, send))) ==> (chanbuf(send) == old(chanbuf(send)) && g(dropped, send) == old(g(dropped, send)) + 1)
+//@   ensures chanhead(recv) == old(chanhead(recv)) && chanhead(send) == old(chanhead(send))
+
+//@ func Relay.serveReadLoop
+//@   serves C12
+//@   requires relay != nil && conn != nil && !isnil(recv) && !isnil(send) && refof(recv) != refof(send)
+//@   ensures[C12] !isnil(result)
+//@   ensures[C12] (len(chanbuf(recv)) - old(len(chanbuf(recv)))) + (g(dropped, recv) - old(g(dropped, recv))) + (len(chanbuf(send)) - old(len(chanbuf(send)))) + (g(dropped, send) - old(g(dropped, send))) == g(framesRead, conn) - old(g(framesRead, conn))
+//@   loop 1
+//@     invariant l != nil
+//@     invariant[C12] (len(chanbuf(recv)) - old(len(chanbuf(recv)))) + (g(dropped, recv) - old(g(dropped, recv))) + (len(chanbuf(send)) - old(len(chanbuf(send)))) + (g(dropped, send) - old(g(dropped, send))) == g(framesRead, conn) - old(g(framesRead, conn))
+
+//@ func Relay.serveWriteLoop
+//@   serves C12 C13
+//@   requires relay != nil && conn != nil && !isnil(send) && !chanclosed(send) && len(g(wsOutTyp, conn)) == len(g(wsOutData, conn))
+//@   ensures[C12] !isnil(result)
+//@   loop 1
+//@     invariant !chanclosed(send)
+//@     invariant[C12] len(g(wsOutData, conn)) == old(len(g(wsOutData, conn))) + (chanhead(send) - old(chanhead(send))) && len(g(wsOutTyp, conn)) == len(g(wsOutData, conn))
+//@     invariant[C12] forall(j, old(len(g(wsOutData, conn))), len(g(wsOutData, conn)), g(wsOutData, conn)[j] == jsonOf(chanbuf(send)[old(chanhead(send)) + (j - old(len(g(wsOutData, conn))))]))
+//@     invariant[C12] forall(j, old(len(g(wsOutData, conn))), len(g(wsOutData, conn)), g(wsOutTyp, conn)[j] == websocket.MessageText)
+//@     invariant chanhead(send) >= old(chanhead(send))
 
 // ---- safeMap (generic; verified at the instantiation used by the router registry)
 //@ func safeMap.Delete
